@@ -80,7 +80,7 @@ func zzC10History() {
 		if op == 6 {
 			break
 		}
-		if op == 0 && vParam("PRE") > 0 {
+		if op == 0 && vParam("PRE") > 0 && vParam("ADDOK") == 0 {
 			vAssume(false) // pre-filled variant: no further Add (covered by the PRE=0 entry)
 		}
 		switch op {
